@@ -416,15 +416,33 @@ func c19Recover(c *Ctx, once *crSigOnce, d *c19DB, img *stor.Stor, cs *c19Case, 
 	if vers != nil {
 		part = "B"
 	}
-	// D19: a damaged table is rebuilt with the caller's comparer and filter instead of the internal ones
+	// D19: a damaged table is rebuilt with the caller's comparer and filter instead of the internal ones;
+	// whether Recover went through that rebuild path is read off its log.
+	var logLines []string
+	img.LogLines = &logLines
+	rebuilt := func() bool {
+		for _, l := range logLines {
+			if strings.Contains(l, "table@recovery rebuilding") {
+				return true
+			}
+		}
+		return false
+	}
 	d19 := func(oracle string) string {
-		if vers != nil {
+		if vers != nil && rebuilt() {
 			return "recoverTable:user-comparer-filter:" + oracle
+		}
+		if vers != nil {
+			return "recover:damaged-blocks:" + oracle
 		}
 		return "recover:manifest-" + cs.Manifest + ":" + oracle
 	}
 	var db *leveldb.DB
 	err, hung := crCall(crWdTimeout, func() (err error) { db, err = leveldb.Recover(img, d.o); return })
+	img.LogLines = nil
+	if vers != nil {
+		c.Res.Count("B_rebuild", fmt.Sprintf("table-rebuilt=%v", rebuilt()))
+	}
 	if hung {
 		once.report(c, d19("hang"), "Recover did not return within 20 s:\n"+blockedSummary(crGoroutines()), cs)
 		return
@@ -502,13 +520,11 @@ func c19Recover(c *Ctx, once *crSigOnce, d *c19DB, img *stor.Stor, cs *c19Case, 
 				}
 			}
 			g, ok := got[k]
-			if newest.lost {
-				if ok != (d.m[k] != "" || func() bool { _, p := d.m[k]; return p }()) || g != d.m[k] {
-					if ok {
-						resurrected++
-					} else {
-						hidden++
-					}
+			if newest.lost { // an older version or nothing may come back (never an invented value: checked above)
+				if ok {
+					resurrected++
+				} else {
+					hidden++
 				}
 				continue
 			}
@@ -525,7 +541,8 @@ func c19Recover(c *Ctx, once *crSigOnce, d *c19DB, img *stor.Stor, cs *c19Case, 
 			}
 		}
 		c.Res.CountN("B_keys", "newest-undamaged-returned", kept)
-		c.Res.CountN("B_keys", "newest-damaged:older-version-or-absent", resurrected+hidden)
+		c.Res.CountN("B_keys", "newest-damaged:some-version-returned", resurrected)
+		c.Res.CountN("B_keys", "newest-damaged:absent", hidden)
 	}
 	// Get must agree with the scan (a rebuilt filter or index must not hide keys)
 	keys := map[string]bool{}
